@@ -43,6 +43,9 @@ CLAIMED = {
     "C04": ("Lean 4 theorems on the scoped-variable store (visible on the same node, untouched elsewhere, inherit-nearest, duplicates are errors in both modes) + differential scoped-variable-heavy programs in both modes",
             "Kernel-checked for every store state: after a successful definition the value is found on that node (the store is keyed by node identity only); other nodes' variables are untouched; without `inherit` a node lacking the variable yields nothing, with `inherit` the nearest of node :: ancestors that has it; a second definition fails with DuplicateVariable and keeps the stored value; in lazy mode forcing two pairs with the same scope fails naming both statements. Tie: generated programs defining/reading scoped variables through different captures, list elements, nested scopes and inherit declarations, both modes, outcome class + error variant + graph against the model (store keyed by pre-order index; ancestor walk over exported parent links; id injectivity checked per tree).",
             "DESIGN.md section 7, C04"),
+    "C07": ("Lean 4 theorems on the parser model as effect-separated programs (location = position of the consumed prefix for every parser program; layout gaps skipped exactly; identifiers read whole, keywords by whole word; string/integer literal round-trips) + differential parsing of generated programs under random layouts and of damaged texts",
+            "Kernel-checked for every text: every state any parser program observes (the only source of recorded locations) is the zero-based (row, character column, byte offset) of the prefix consumed so far; consume_whitespace consumes exactly the gap (whitespace and `;` comments of any content) before a token; parse_name reads the maximal identifier, consume_keyword rejects a keyword followed by an identifier character, and a statement whose first identifier is not one of the ten keywords is reported whole as UnexpectedKeyword; parse_string returns exactly the characters spelled under the escape table for every spelling; integer literals denote their decimal value or InvalidIntegerConstant. The composition through the recursive grammar is not a theorem; it is covered by the tie: complete AST with all locations (or ParseError variant + payload + location) equal between parser.rs and the model on generated programs re-laid-out with random gaps (tabs, CR/LF, comments with multi-byte text, NBSP, keyword-prefixed identifiers) and on token/character-damaged texts; every recorded location must point at its construct's first character; the relayout must parse to the house layout's AST modulo locations. tree-sitter Query::new, Regex::new and Unicode character classes are oracles.",
+            "DESIGN.md section 7, C07"),
     "C08": ("Lean 4 proof that attribute assignment is permutation-invariant (success and resulting map), phase order and queue routing of the lazy graph + execution of ALL permutations of the stanzas of generated files",
             "Kernel-checked: for every attribute set and assignment list, every permutation of the list succeeds iff the list does and yields the same map (C08_attrs_order_free, via refinement to a plain-map fold and a swap lemma); the evaluate phase runs edges, then attributes, then prints, then thunks, then scoped cells; statements are queued by kind only. The whole-program statement C08_full is stated, not proved; it is checked by executing every permutation (n! for n <= 4 quick / 5 thorough, sampled beyond) of every generated file lazily on the real code (success must coincide, graphs isomorphic) and comparing sampled permutations with the model.",
             "DESIGN.md section 7, C08"),
